@@ -874,3 +874,8 @@ TASKS = _macro_body_tasks() + [
              buffers=(None, "t_buf"), replay_fn=native_macros, configure=configure_modular, min_paths=2),
     ParseSignature(),
 ]
+
+
+# the call path from a template to the macro and the "body uses varargs / kwargs / caller" analysis (hunt round)
+from contracts import c06_callpath as _cp  # noqa: E402
+TASKS = list(TASKS) + list(_cp.TASKS)
